@@ -219,7 +219,7 @@ def run(ctx):
         def on_call(s2, fn, st, nid, callees, exts):
             n = fn.nodes[nid]
             cs, z, bell, sub = st.user
-            if n.get("callee") == "xpoll_bell_reg_mod" and C.const_of(fn, n["args"][2]) == 1:
+            if n.get("callee") == "xpoll_bell_reg_mod" and S.truth(fn, st, n["args"][2]) == 1:
                 return (cs, z, True, sub)
             return None
 
